@@ -466,9 +466,16 @@ func leavesBlock(b *ast.BlockStmt) bool {
 	if b == nil || len(b.List) == 0 {
 		return false
 	}
-	switch b.List[len(b.List)-1].(type) {
+	switch x := b.List[len(b.List)-1].(type) {
 	case *ast.ReturnStmt, *ast.BranchStmt:
 		return true
+	case *ast.ExprStmt:
+		// panic(...) leaves as well
+		if call, ok := x.X.(*ast.CallExpr); ok {
+			if id, ok := call.Fun.(*ast.Ident); ok && id.Name == "panic" && id.Obj == nil {
+				return true
+			}
+		}
 	}
 	return false
 }
